@@ -292,7 +292,7 @@ def gen_plan(seed, tier="quick", variant=None):
         cfg["start"] = "earliest"
         ops = [o for o in ops if o["op"] == "append"][:1]
         ops += [{"t": 0.05, "op": "commit"}, {"op": "stop", "on": ["commit", 0], "delay": 0.0005},
-                {"op": rng.choice(["shutdown", "commit"]), "on": ["commit_result", 0]},
+                {"op": rng.choice(["shutdown", "commit", "stop", "stop"]), "on": ["commit_result", 0]},
                 {"op": "start", "on": ["start_result", 0], "start": "earliest", "start_rel": 0}]
         if rng.random() < 0.5:
             # (and once more, at a position, should that run be ended at once as well)
